@@ -114,6 +114,25 @@ fn untok(t: &[Tok]) -> String {
         .collect()
 }
 
+thread_local! {
+    /// deepest parenthesis nesting met inside one macro argument (as written or once its own macro
+    /// calls are expanded) since the last reset
+    pub static MAX_ARG_DEPTH: std::cell::Cell<u32> = std::cell::Cell::new(0);
+}
+
+fn paren_depth(s: &str) -> u32 {
+    let (mut d, mut m) = (0i32, 0i32);
+    for c in s.chars() {
+        if c == '(' {
+            d += 1;
+            m = m.max(d);
+        } else if c == ')' {
+            d -= 1;
+        }
+    }
+    m.max(0) as u32
+}
+
 /// Expand `text` with the macros currently defined. Lazy (ISO) expansion; bodies are rescanned.
 pub fn expand(text: &str, defs: &BTreeMap<String, Macro>, depth: u32) -> String {
     if depth > 40 {
@@ -162,6 +181,11 @@ pub fn expand(text: &str, defs: &BTreeMap<String, Macro>, depth: u32) -> String 
                                 k += 1;
                             }
                             if level == 0 && (args.len() == params.len() || (params.is_empty() && args.len() == 1 && untok(&args[0]).trim().is_empty())) {
+                                for a in &args {
+                                    let raw = untok(a);
+                                    let d = paren_depth(&raw).max(paren_depth(&expand(&raw, defs, depth + 1)));
+                                    MAX_ARG_DEPTH.with(|c| c.set(c.get().max(d)));
+                                }
                                 // substitute parameters in the body, then rescan
                                 let body = tokenize(&m.body);
                                 let mut sub = String::new();
@@ -194,6 +218,11 @@ pub fn expand(text: &str, defs: &BTreeMap<String, Macro>, depth: u32) -> String 
 const PARAMS: [&str; 4] = ["pa", "pb", "pc", "pd"];
 
 fn gen_arg(g: &mut G, macros: &[Macro], depth: u32) -> String {
+    if g.chance(1, 8) {
+        // an argument with exactly 3 or 4 levels of parentheses (the documented limit is 4)
+        let d = 3 + g.below(2);
+        return format!("{}uc2+{}{}", "(".repeat(d), g.below(5), ")".repeat(d));
+    }
     match g.below(if depth > 0 { 7 } else { 3 }) {
         0 => format!("{}", g.below(9)),
         1 => "uc2".to_string(),
@@ -337,8 +366,40 @@ pub fn gen_case(g: &mut G, ex: &Excl) -> Case {
     for v in &near {
         lines.push(Line::Code { text: format!("  {} = {};", v, g.below(200)), body: true });
     }
+    // with more than 100 macros: several #undef, one in the first table of 100 and then some around
+    // the boundary between the tables (the built-in macro and -D macros shift it by a few places)
+    let mut many_undefs = false;
+    if many && g.chance(2, 3) {
+        let eligible: Vec<usize> = macros
+            .iter()
+            .enumerate()
+            .filter(|(i, m)| m.params.is_none() && !cmdline.contains(i) && !macros.iter().any(|o| o.name != m.name && tokenize(&o.body).contains(&Tok::Id(m.name.clone()))))
+            .map(|(i, _)| i)
+            .collect();
+        let early: Vec<usize> = eligible.iter().cloned().filter(|i| *i < 90).collect();
+        let late: Vec<usize> = eligible.iter().cloned().filter(|i| (94..=104).contains(i)).collect();
+        let mut picks = vec![];
+        if !early.is_empty() {
+            picks.push(early[g.below(early.len())]);
+        }
+        for i in late {
+            if g.chance(2, 3) {
+                picks.push(i);
+            }
+        }
+        if picks.len() >= 2 {
+            many_undefs = true;
+            labels.push("several-undefs-across-the-100-boundary".to_string());
+            for i in picks {
+                let name = macros[i].name.clone();
+                lines.push(Line::Undef(i));
+                lines.push(Line::Code { text: format!("char {};", name), body: false });
+                lines.push(Line::Code { text: format!("  {} = 5;", name), body: true });
+            }
+        }
+    }
     // #undef of an object-like macro, then the name is reused as a variable
-    if g.chance(1, 3) {
+    if !many_undefs && g.chance(1, 3) {
         if let Some((i, m)) = macros.iter().enumerate().filter(|(i, m)| m.params.is_none() && !cmdline.contains(i)).last() {
             // only if no other macro body mentions it
             if !macros.iter().any(|o| o.name != m.name && tokenize(&o.body).contains(&Tok::Id(m.name.clone()))) {
@@ -445,26 +506,14 @@ pub fn check(case: &Case, st: &mut Stats, ex: &Excl) -> Result<(), String> {
         st.count("excluded:param_shadows_macro");
         return Ok(());
     }
+    MAX_ARG_DEPTH.with(|c| c.set(0));
     let (p, q, _) = render(case, false);
-    if ex.has("macro_arg_paren_depth") {
-        // dynamic exclusion: some line nests parentheses deeper than 4 levels once expanded
-        let deep = q.lines().any(|l| {
-            let mut d = 0i32;
-            let mut m = 0;
-            for c in l.chars() {
-                if c == '(' {
-                    d += 1;
-                    m = m.max(d);
-                } else if c == ')' {
-                    d -= 1;
-                }
-            }
-            m > 4
-        });
-        if deep {
-            st.count("excluded:macro_arg_paren_depth");
-            return Ok(());
-        }
+    let arg_depth = MAX_ARG_DEPTH.with(|c| c.get());
+    st.count(&format!("max_argument_paren_depth:{}", arg_depth.min(6)));
+    if ex.has("macro_arg_paren_depth") && arg_depth > 4 {
+        // some macro argument nests parentheses deeper than 4 levels (as written or once expanded)
+        st.count("excluded:macro_arg_paren_depth");
+        return Ok(());
     }
     let o = Opts::o(1);
     let rp = cc::compile_str(&p, &o);
@@ -520,7 +569,7 @@ fn first_diff(a: &str, b: &str) -> (String, String) {
 }
 
 pub fn run(ctx: &mut RunCtx) -> i32 {
-    let cases = ctx.cases(6_000, 150_000);
+    let cases = ctx.cases(4_500, 150_000);
     let (excl, known_seen) = super::activate_exclusions(ctx, "C08");
     let (stats, failures, aborted) = pbt::run_sharded(
         ctx.seed,
